@@ -70,3 +70,52 @@ package freelist
 //@   ensures result == 0 || result >= 2
 //@   ensures result != 0 ==> forall k int :: 0 <= k && k < numPages ==> old(gfree[ifaceref(self)][result + k]) && !gfree[ifaceref(self)][result + k]
 //@   modifies gfree, all("array.ids"), allelems("common.Pgid"), allmaps("common.Pgid", "common.Txid"), allmaps("common.Pgid", "struct{}"), all("hashMap.freePagesCount"), allmaps("uint64", "freelist.pidSet"), allmaps("common.Pgid", "uint64")
+
+//@ ghost var lastreg common.Txid       -- argument of the most recent AddReadonlyTXID
+//@ ghost var lastunreg common.Txid     -- argument of the most recent RemoveReadonlyTXID
+//@ ghost var lastrollback common.Txid  -- argument of the most recent Rollback
+
+//@ func Interface.AddReadonlyTXID
+//@   ensures lastreg == txid
+//@   modifies lastreg, all("shared.readonlyTXIDs"), allelems("common.Txid")
+
+//@ func Interface.RemoveReadonlyTXID
+//@   ensures lastunreg == txid
+//@   modifies lastunreg, all("shared.readonlyTXIDs"), allelems("common.Txid")
+
+//@ func Interface.FreeCount
+//@   ensures result >= 0
+//@   modifies nothing
+
+//@ func Interface.PendingCount
+//@   ensures result >= 0
+//@   modifies nothing
+
+//@ func Interface.EstimatedWritePageSize
+//@   ensures result >= 16 && result <= 1099511627776
+//@   modifies nothing
+
+//@ func Interface.Rollback
+//@   ensures lastrollback == txId
+//@   modifies lastrollback, gfree, allmaps("common.Txid", "*txPending"), allmaps("common.Pgid", "common.Txid"), allmaps("common.Pgid", "struct{}")
+
+//@ ghost var lastreload int       -- page argument of the most recent Reload
+
+//@ func Interface.Reload
+//@   ensures lastreload == p
+//@   modifies lastreload, gfree, all("array.ids"), allelems("common.Pgid"), all("shared.cache"), allmaps("common.Pgid", "struct{}"), all("hashMap.freePagesCount"), all("hashMap.freemaps"), all("hashMap.forwardMap"), all("hashMap.backwardMap"), allmaps("uint64", "freelist.pidSet"), allmaps("common.Pgid", "uint64")
+
+//@ func Interface.NoSyncReload
+//@   modifies gfree, all("array.ids"), allelems("common.Pgid"), all("shared.cache"), allmaps("common.Pgid", "struct{}"), all("hashMap.freePagesCount"), all("hashMap.freemaps"), all("hashMap.forwardMap"), all("hashMap.backwardMap"), allmaps("uint64", "freelist.pidSet"), allmaps("common.Pgid", "uint64")
+
+//@ func Interface.ReleasePendingPages
+//@   modifies gfree, all("array.ids"), allelems("common.Pgid"), allelems("common.Txid"), all("shared.readonlyTXIDs"), allmaps("common.Txid", "*txPending"), all("txPending.ids"), all("txPending.alloctx"), all("txPending.lastReleaseBegin"), all("hashMap.freePagesCount"), allmaps("uint64", "freelist.pidSet"), allmaps("common.Pgid", "uint64")
+
+//@ func Interface.Free
+//@   requires p != nil
+//@   modifies allmaps("common.Txid", "*txPending"), allmaps("common.Pgid", "common.Txid"), allmaps("common.Pgid", "struct{}"), all("txPending.ids"), all("txPending.alloctx"), all("txPending.lastReleaseBegin"), allelems("common.Pgid"), allelems("common.Txid")
+
+//@ func Interface.Write
+//@   requires page != nil
+//@   ensures page.flags == common.FreelistPageFlag && page.id == old(page.id) && page.overflow == old(page.overflow)
+//@   modifies page.flags, page.count, allelems("common.Pgid")
